@@ -529,6 +529,23 @@ def run(ck):
     shared.truthy_zero(ck, [PDB, GRO, 'vermouth/truncating_formatter.py'])
     shared.pure_writer(ck, pdb, wfn, [wfn.args.args[0].arg])
     shared.pure_writer(ck, gro, gw, [gw.args.args[0].arg])
+    # GRO reader: the coordinate width is measured between decimal points *after* the four fixed 5-column fields (a "." in a name must not count)
+    grf = gro.func('read_gro')
+    fd = single_def(grf, 'first_dot')
+    sd = single_def(grf, 'second_dot')
+    start = try_fold(fd.args[1], default=None) if isinstance(fd, ast.Call) and call_attr(fd) == 'find' and len(fd.args) == 2 else None
+    ok = isinstance(start, int) and start >= 20 and sd is not None and u(sd) == "first_line.find('.', first_dot + 1)" and u(single_def(grf, 'precision')) == 'second_dot - first_dot'
+    ck.ob('FMT-gro-width', gro.loc(grf), ok, 'the GRO reader measures the coordinate column width as the distance between two consecutive decimal points searched from column {} on '
+          '(>= 20: past resid, resname, atomname, atomid), so dots inside names cannot disturb it'.format(start), key='FMT-gro-width|search-start')
+    # GRO writer: velocities are written only when every molecule has them (else positions only) -- a molecule without velocities never makes the writer fail
+    gwf = gro.func('write_gro')
+    hv = single_def(gwf, 'has_vel')
+    ok = isinstance(hv, ast.Call) and call_name(hv) == 'all' and hv.args and isinstance(hv.args[0], ast.GeneratorExp) and \
+        u(hv.args[0].generators[0].iter) == 'system.molecules' and "'velocity' in" in u(hv.args[0].elt) and not hv.args[0].generators[0].ifs
+    reads = [n for n in walk_local(gwf) if isinstance(n, ast.Subscript) and try_fold(n.slice, default=None) == 'velocity' and isinstance(n.ctx, ast.Load)]
+    guarded = all(any(isinstance(a, ast.If) and u(a.test) == 'has_vel' for a in gro.ancestors(r)) for r in reads)
+    ck.ob('FMT-gro-width', gro.loc(gwf), ok and guarded and bool(reads), 'the GRO writer decides "with velocities" over all molecules of the system and reads a velocity only under that decision',
+          key='FMT-gro-width|velocities-all-molecules')
     # CONECT reader: every partner listed on a record gets its bond (the writer lists each bond once, in either serial order)
     dsc = ck.need(method(ck.index.mod('vermouth/pdb/pdb.py').cls('PDBParser'), '_do_single_conect'), 'PDBParser._do_single_conect vanished')
     pdbm = ck.index.mod('vermouth/pdb/pdb.py')
